@@ -1208,6 +1208,7 @@ func (fi *FuncInfo) condAlternatives(c Cond, depth int) [][]Cond {
 		}
 	}
 	var alts [][]Cond
+	base := fi.condsAt(ph.Block())
 	for i, e := range ph.Edges {
 		pred := ph.Block().Preds[i]
 		var ec []Cond
@@ -1218,30 +1219,80 @@ func (fi *FuncInfo) condAlternatives(c Cond, depth int) [][]Cond {
 				ec = append(ec, Cond{iff.Cond, false})
 			}
 		}
-		// the conditions under which pred itself is reached, below the φ's own dominator
-		for _, cd := range fi.condsAt(pred) {
+		if k, isC := e.(*ssa.Const); isC {
+			if k.Value == nil {
+				return nil
+			}
+			if constant.BoolVal(k.Value) != c.True {
+				continue
+			}
+		}
+		// the conditions under which pred itself is reached, below the φ's own dominator (merges on
+		// the way are split)
+		for _, w := range fi.waysTo(pred, ph.Block().Idom(), base, 0) {
+			a := append(append([]Cond{}, ec...), w...)
+			if _, isC := e.(*ssa.Const); !isC {
+				a = append(a, Cond{e, c.True})
+			}
+			alts = append(alts, a)
+		}
+	}
+	return alts
+}
+
+// waysTo: the alternative condition lists under which block b is reached from the block stop (which
+// dominates it): single-predecessor chains are followed edge by edge; a merge on the way (¬(a && b)
+// reaches its continuation from two branches) is split into its incoming edges, up to three merges deep;
+// loop headers are not crossed (then the plain dominating conditions, minus base, are used).
+func (fi *FuncInfo) waysTo(b, stop *ssa.BasicBlock, base []Cond, depth int) [][]Cond {
+	minus := func(cs []Cond) []Cond {
+		var out []Cond
+		for _, cd := range cs {
 			dup := false
-			for _, x := range fi.condsAt(ph.Block()) {
+			for _, x := range base {
 				if x == cd {
 					dup = true
 				}
 			}
 			if !dup {
-				ec = append(ec, cd)
+				out = append(out, cd)
 			}
 		}
-		if k, isC := e.(*ssa.Const); isC {
-			if k.Value == nil {
-				return nil
-			}
-			if constant.BoolVal(k.Value) == c.True {
-				alts = append(alts, ec)
-			}
-			continue
-		}
-		alts = append(alts, append(ec, Cond{e, c.True}))
+		return out
 	}
-	return alts
+	if b == stop {
+		return [][]Cond{{}}
+	}
+	fallback := [][]Cond{minus(fi.condsAt(b))}
+	if stop == nil || !stop.Dominates(b) || depth > 12 {
+		return fallback
+	}
+	for _, p := range b.Preds {
+		if b.Dominates(p) {
+			return fallback // loop header
+		}
+	}
+	merges := 0
+	if len(b.Preds) >= 2 {
+		merges = 1
+	}
+	if len(b.Preds) == 0 {
+		return fallback
+	}
+	var out [][]Cond
+	for _, p := range b.Preds {
+		var ec []Cond
+		if iff, ok := p.Instrs[len(p.Instrs)-1].(*ssa.If); ok && p.Succs[0] != p.Succs[1] {
+			ec = append(ec, Cond{iff.Cond, p.Succs[0] == b})
+		}
+		for _, w := range fi.waysTo(p, stop, base, depth+1+3*merges) {
+			out = append(out, append(append([]Cond{}, ec...), w...))
+		}
+	}
+	if len(out) > 12 {
+		return fallback
+	}
+	return out
 }
 
 // expandConds: nil when no condition is a boolean φ; otherwise the list of alternative condition
